@@ -27,6 +27,8 @@ fn js<T: Copy + Into<i64>>(r: &Rect<T>) -> Value {
 fn form(lo: Option<i32>, hi: Option<i32>, incl: bool) -> (&'static str, u32, u32) {
     let u = |x: Option<i32>| x.unwrap_or(0).max(0) as u32;
     match (lo.is_some(), hi.is_some()) {
+        // (odd starts: explicit bound pairs with an excluded start)
+        (true, true) if u(lo) % 2 == 1 => (if incl { "exi" } else { "ex" }, u(lo), u(hi)),
         (true, true) => (if incl { "ri" } else { "rg" }, u(lo), u(hi)),
         (true, false) => ("from", u(lo), 0),
         (false, true) => (if incl { "toi" } else { "to" }, 0, u(hi)),
@@ -41,6 +43,8 @@ fn bounds(f: &str, a: u32, b: u32) -> (Bound<u32>, Bound<u32>) {
         "to" => (Unbounded, Excluded(b)),
         "toi" => (Unbounded, Included(b)),
         "from" => (Included(a), Unbounded),
+        "ex" => (Excluded(a), Excluded(b)),
+        "exi" => (Excluded(a), Included(b)),
         _ => (Unbounded, Unbounded),
     }
 }
